@@ -2,6 +2,7 @@
 from ..eng import EngineModel
 from .. import rules_db as rd
 from .. import rules_query as rq
+from .. import rules_extra as rx
 
 
 def check(repo, rep, tier):
@@ -24,3 +25,5 @@ def check(repo, rep, tier):
     rd.rule_call_argument_order(em, rep, 'C09.M2')
     rd.rule_findall_shape(em, rep, 'C09.M3')
     rd.rule_neq(em, rep, 'C09.M4')
+    rx.rule_derived_tables_follow(em, rep, 'C09.M5')
+    rx.rule_lookups_agree(em, rep, 'C09.M6')
